@@ -220,6 +220,15 @@ func (in *Interp) cborUnmarshal(dataV Value, dstV Value) Value {
 	if !isPtr || dp.C == nil {
 		return in.mkError("cbor: Unmarshal(non-pointer or nil pointer)", nil)
 	}
+	// destination is a pointer to a pointer: decode into the pointee (allocated if nil), as the real decoder does
+	if inner, ok := pt.Elem().Underlying().(*types.Pointer); ok {
+		ip, _ := in.load(dp).(PtrV)
+		if ip.C == nil {
+			ip = PtrV{C: in.newCell(inner.Elem(), in.zero(inner.Elem()))}
+			in.store(dp, ip)
+		}
+		return in.cborUnmarshal(dataV, IfaceV{T: pt.Elem(), V: ip})
+	}
 	var data []*Term
 	if s, ok := dataV.(SliceV); ok && s.C != nil {
 		data = in.bytesOf(s)
